@@ -342,6 +342,10 @@ func Solve(u *Unit, o *Obligation, dir string, timeout time.Duration, idx int) {
 			}
 		}
 	}
+	if o.Vacuity && timeout > 8*time.Second {
+		// a probe only matters when it is refuted (contradictory assumptions); that shows quickly or not at all
+		timeout = 8 * time.Second
+	}
 	ctx, cancel := context.WithTimeout(context.Background(), timeout+2*time.Second)
 	defer cancel()
 	specs := solverSpecs(timeout)
